@@ -23,6 +23,13 @@ func c10Prelude() []string {
 		"c = mkc([0])",
 		"pair = (n) -> [n - 1, n + 1]",
 		"trip = (n) -> [0, n * n, n]",
+		"seq = (n) -> {\n  r = []\n  for i <- fromto(0, n) r = r + [i]\n  r\n}",
+		"nest = (n) -> if n <= 0 {\n  []\n} else [] + [n, nest(n - 1)]",
+		"py = (n) -> {\n  yield n\n  n + 100\n}",
+		"gz = (n) -> {\n  w = [] + [n, py(n)]\n  yield w\n}",
+		"ext = (a) -> {\n  b = a\n  b = b + [6]\n  a = a + [7]\n  [a, b]\n}",
+		"grow = (a) -> {\n  a = a + [5]\n  a\n}",
+		"use = () -> {\n  v = [1, 2, 3] + [4]\n  w = grow(v)\n  v = v + [9]\n  [w, v]\n}",
 		"rows = (p, n) -> if n <= 0 {\n  [p]\n} else rows(p + [0], n - 1) + rows(p + [1], n - 1)",
 	}
 }
@@ -65,6 +72,18 @@ func c10Ops() []string {
 		"sz = sx + \"r\"",
 		"sy = sx + \"s\"",
 		"y = z[0:1] + x[1:2]",
+		// arrays past the sizes at which an implementation might start to extend in place
+		"x = seq(40)",
+		"y = seq(33) + [1]",
+		"z = x + y",
+		// a literal whose later element runs the same literal again before it is complete (recursion, a suspended generator)
+		"z = nest(3)",
+		"{\n  z = []\n  for a, b <- gz(1), gz(2) z = z + [a, b]\n}",
+		// one array held under two names inside a function, both extended in the `v = v + [...]` form
+		"z = ext(y)",
+		"z = ext([1, 2, 3] + [4])",
+		"z = use()",
+		"keep = keep + [grow(x)]",
 		// statements that end in a runtime error after (re)defining functions whose bodies hold literals
 		"{\n  lit = () -> [1, 2, 3]\n  c = mkc([0])\n  keep[99]\n}",
 		"{\n  trip = (n) -> [0, n * n, n]\n  sz = \"abc\"[1:2] + 1\n}",
@@ -180,7 +199,7 @@ func init() {
 	core.Register(&core.Check{
 		ID:    "C10",
 		Level: "model_checking",
-		Rule: "explicit-state search over all sequences of length <= 3 (quick) / 4 (thorough) of 48 array/string operations on the globals x, y, z, sx, sy, sz, keep (literals at top level, inside a function called repeatedly and inside a loop; every slice x[i:j]; concatenations of slices, of slices of slices, nested arrays; passing to a concatenating function; iterating with elems; capture in a closure and in a generator that concatenate; string analogues). After every operation the observer [x, y, z, sx, sy, sz, keep, lit(), c(), pair(1), trip(2)] is evaluated on the real VM and on the reference model (which copies always): every variable not assigned, every earlier result and every literal must still print as before; sequences of length <= 2 and all sequences containing a statement that ends in a runtime error are also typed into the real read-eval loop (processInput), whose echo of every observer must equal the in-process value. " +
+		Rule: "explicit-state search over all sequences of length <= 3 (quick) / 4 (thorough) of 57 array/string operations on the globals x, y, z, sx, sy, sz, keep (literals at top level, inside a function called repeatedly and inside a loop; every slice x[i:j]; concatenations of slices, of slices of slices, nested arrays; passing to a concatenating function; iterating with elems; capture in a closure and in a generator that concatenate; string analogues). After every operation the observer [x, y, z, sx, sy, sz, keep, lit(), c(), pair(1), trip(2)] is evaluated on the real VM and on the reference model (which copies always): every variable not assigned, every earlier result and every literal must still print as before; sequences of length <= 2 and all sequences containing a statement that ends in a runtime error are also typed into the real read-eval loop (processInput), whose echo of every observer must equal the in-process value. " +
 			"states = distinct (renderings, len/cap of every live array, backing-array sharing relation) read through the value hook; transitions = operations applied; distinct_nontrivial = sequences after which two live arrays share a backing array with spare capacity (so an in-place append could have collided)",
 		Assumptions: []string{"reference model refsem copies on every operation", "array layout is read through value.VerifArrayInfo (size of value.Type assumed 24 bytes for the overlap test)"},
 		Exec: func(payload string) (string, string) {
